@@ -127,7 +127,7 @@ Qed.
 Lemma change_of_get st x d : get_dir st x = Some d -> change_of st x = d_change d.
 Proof. unfold change_of. now intros ->. Qed.
 
-Lemma change_of_tick st x : change_of (tick st) x = change_of st x.
+Lemma change_of_tick k st x : change_of (tick k st) x = change_of st x.
 Proof. reflexivity. Qed.
 
 Lemma changeinfo_step st o :
